@@ -13,7 +13,7 @@ PROPERTY = "C03"
 LEVEL = "exploration"
 RULE = (
     "every ordered sequence of <=k range specs (first-last, first-, -suffix) over numbers 0..size+1 for every size in the bound, "
-    "separators ',' and ', '; every string up to length n over a junk token alphabet; every order of every >=4-subset of 7 chained specs; "
+    "separators ',' and ', ' (plus a two/three-spec family under 8 whitespace variants of the separator); every string up to length n over a junk token alphabet; every order of every >=4-subset of 7 chained specs; "
     "a case is counted as distinct_nontrivial when it is grammar-conforming and denotes at least one satisfiable spec (all enumerated headers are distinct by construction)"
 )
 ASSUMPTIONS = [
@@ -29,6 +29,10 @@ JUNK = ["bytes=", "-", ",", " ", "0", "1", "9", "x"]
 JUNK_SIZES = [0, 2, 10]
 CHAIN_SIZE = 40
 CHAIN = [("fl", 0, 9), ("fl", 20, 29), ("fl", 5, 24), ("fl", 10, 19), ("fl", 30, 30), ("s", 3), ("f", 36)]
+
+
+SEPS = [",", ", ", ",\t", ",  ", " , ", "\t,\t", " ,", ",\t "]  # optional whitespace around the comma (RFC 9110 list syntax)
+SEP_SIZE = 6
 
 
 def all_specs(size):
@@ -54,6 +58,7 @@ def shards(tier, seed):
         out.append(("junk", t0, b["junk_len"]))
     out.append(("chain",))
     out.append(("big",))
+    out += [("seps", i) for i in range(len(SEPS))]
     return out
 
 
@@ -147,6 +152,17 @@ def run_shard(desc, tier):
                             r.add("outcomes", tuple(got[1]))
         if t0 == 0:
             r.sample({"size": size, "header": header, "result": _call(header, size)})
+    elif kind == "seps":
+        sep = SEPS[desc[1]]
+        specs = all_specs(SEP_SIZE)
+        texts = [RR.spec_text(x) for x in specs]
+        for a in range(len(specs)):
+            for b in range(len(specs)):
+                judge_grammar([specs[a], specs[b]], SEP_SIZE, "bytes=" + texts[a] + sep + texts[b], r)
+        few = [i for i, x in enumerate(specs) if all(n in (0, 2, SEP_SIZE - 1, SEP_SIZE) for n in x[1:])]
+        for a, b, c in itertools.product(few, repeat=3):
+            judge_grammar([specs[a], specs[b], specs[c]], SEP_SIZE, "bytes=" + texts[a] + sep + texts[b] + sep + texts[c], r)
+        r.sample({"size": SEP_SIZE, "separator": sep, "header": "bytes=0-1" + sep + "3-"})
     elif kind == "chain":
         for n in range(4, len(CHAIN) + 1):
             for sub in itertools.combinations(CHAIN, n):
@@ -206,7 +222,7 @@ def _parse_grammar(header):
         return None
     specs = []
     for part in header[6:].split(","):
-        part = part.strip(" ")
+        part = part.strip(" \t")
         a, sep, b = part.partition("-")
         if not sep or not (a + b).isdigit() or not (a + b).isascii():
             return None
